@@ -137,7 +137,13 @@ Section Delimited.
               end
     end.
 
+  (* `e * (0, 0)` is And([]), whose parseImpl indexes exprs[0]: it fails on every input.  streamline() merges it
+     away in  content + And([])  (a two-element And) but not once Opt(delim) has been appended (F-18i) *)
+  Definition empty_and_survives (mn : nat) (mx : option nat) (trail : bool) : bool :=
+    Nat.eqb (dl_lo mn) 0 && match mx with Some m => Nat.eqb (dl_hi m) 0 | None => false end && trail.
+
   Definition delimited_list (mn : nat) (mx : option nat) (trail : bool) (s : str) : option (list A * str) :=
+    if empty_and_survives mn mx trail then None else
     match content s with
     | None => None
     | Some (x, s1) =>
